@@ -39,7 +39,7 @@ COMPONENTS = {
     "real": ["EnsembleOptimizer._get_completed_variables / nested result handling", "EnsembleEvaluator._expand_gradients", "samplers", "SciPy plug-in (family 2)", "VariableScaler"],
     "stub": ["SimEvaluator", "sim/scripted optimizer", "simwrap recorder", "sim/inject sampler"],
 }
-PROBES = ["relative_on_unbounded_fixed_rejected", "rows_checked", "results_checked", "gradient_zero_checked", "fixed_variable_present", "all_free_mask", "single_free_mask",
+PROBES = ["inner_result_changes_between_runs", "relative_on_unbounded_fixed_rejected", "rows_checked", "results_checked", "gradient_zero_checked", "fixed_variable_present", "all_free_mask", "single_free_mask",
           "nested_inner_result_delivered", "nested_rows_checked", "backend_sees_free_only", "real_backend", "several_samplers",
           "with_variable_transform", "perturbed_rows_checked", "multi_step"]
 REAL = ["slsqp", "nelder-mead", "differential_evolution"]
@@ -139,10 +139,26 @@ def generate(seed: int, index: int, tier: str) -> dict:
         inner["variables"]["mask"] = [not m for m in mask]
         inner["optimizer"]["options"]["script"] = [{"op": rng.choice(["f", "fg"]), "pts": [rng.randrange(-1, len(inner["optimizer"]["options"]["points"]))]}
                                                    for _ in range(rng.randint(1, 3))]
+        if rng.random() < 0.5:
+            # an inner algorithm that moves on from where it is started: every inner run delivers other values
+            # for the outer's fixed variables, also between a function and a gradient request at one outer point
+            for e in inner["optimizer"]["options"]["script"]:
+                e["pts"] = [{"rel": [round(rng.uniform(-0.3, 0.3), 2) for _ in range(n)]}]
+            scn["inner_moves"] = True
+            # (the walk must not leave the bounds - the statement speaks of values inside the bounds - so there are none)
+            for c_ in (cfg, inner):
+                c_["variables"].pop("lower_bounds", None)
+                c_["variables"].pop("upper_bounds", None)
+                if any(t == 2 for t in np.atleast_1d(c_["gradient"].get("perturbation_types", 1))):
+                    c_["gradient"].pop("perturbation_types", None)
         scn["configs"].append(inner)
         for e in cfg["optimizer"]["options"]["script"]:
             e.pop("batch", None)
             e["pts"] = e["pts"][:1]
+        if rng.random() < 0.5 and cfg["optimizer"]["options"]["script"]:
+            # function request followed by a gradient request at the same outer point
+            p0 = cfg["optimizer"]["options"]["script"][0]["pts"]
+            cfg["optimizer"]["options"]["script"][:1] = [{"op": "f", "pts": list(p0)}, {"op": "g", "pts": list(p0)}]
         scn["plan"]["steps"] = [{"kind": "optimizer", "cfg": 0,
                                  "nested": {"steps": [{"kind": "optimizer", "cfg": 1}], "recorders": ["a"],
                                             "trackers": [{"what": rng.choice(["best", "last"]), "tol": None, "sources": [0]}]}}]
@@ -237,6 +253,8 @@ def execute(scn: dict) -> dict:
                 held = end.tracker_state[ctx.trackers.index(inner_tracker)]
                 if held is not None:
                     probe("nested_inner_result_delivered")
+                    if outer_fixed_timeline and not np.array_equal(outer_fixed_timeline[-1][1], np.asarray(held.evaluations.variables, float)[~mask0]):
+                        probe("inner_result_changes_between_runs")
                     outer_fixed_timeline.append((end.n, np.asarray(held.evaluations.variables, float)[~mask0]))
     # --- evaluator rows ------------------------------------------------------------------------
     call_event = {}
